@@ -26,7 +26,7 @@ ToSet(q) == { q[i] : i \in 1..Len(q) }
 VARIABLES cid, fs, k, ok, cut
 tvars == <<vars, cid, fs, k, ok, cut>>
 
-DeclOf(j) == [st |-> ToSet(j.st), ev |-> ToSet(j.ev), tt |-> ToSet(j.tt), svc |-> ToSet(j.svc), resp |-> j.resp, sf |-> j.sf]
+DeclOf(j) == [st |-> ToSet(j.st), ev |-> ToSet(j.ev), tt |-> ToSet(j.tt), svc |-> ToSet(j.svc), resp |-> j.resp, sf |-> j.sf, alt |-> j.alt]
 DefsOf(q) == [i \in 1..Len(q) |-> [n |-> q[i].n, d |-> DeclOf(q[i].d)]]
 
 TInit == /\ cid \in 1..Len(Cases) /\ fs \in 1..Len(FlagSeqs) /\ k = 0 /\ ok = TRUE /\ cut = 0
@@ -36,6 +36,7 @@ TInit == /\ cid \in 1..Len(Cases) /\ fs \in 1..Len(FlagSeqs) /\ k = 0 /\ ok = TR
          /\ cnt = [s \in Svc |-> 0] /\ own = [s \in Svc |-> NoOwner] /\ hd = [s \in Svc |-> 0]
          /\ subs = [x \in Ent |-> {}] /\ lst = [e \in Ev |-> {}] /\ tm = {}
          /\ runs = {} /\ res = NoRes /\ quiet = TRUE /\ hot = {} /\ steps = 0 /\ lastAct = [a |-> "init"]
+         /\ imp = {}
 
 Do(a) == CASE a.a = "define" -> Define(a.c, a.n, DeclOf(a.d))
            [] a.a = "del"    -> Del(a.c, a.n)
@@ -43,10 +44,11 @@ Do(a) == CASE a.a = "define" -> Define(a.c, a.n, DeclOf(a.d))
            [] a.a = "push"   -> Push(a.c, DeclOf(a.d), a.where, a.via)
            [] a.a = "pop"    -> Pop(a.c)
            [] a.a = "clear"  -> Clear(a.c, a.where)
-           [] a.a = "reload" -> Reload(a.c, DefsOf(a.defs))
+           [] a.a = "reload" -> Reload(a.c, DefsOf(a.defs), a.fail, a.im, DefsOf(a.mdefs))
+           [] a.a = "import" -> Import(a.c, DefsOf(a.mdefs), a.via, a.fail)
            [] a.a = "close"  -> Close(a.c)
            [] a.a = "unload" -> Unload
-           [] a.a = "boot"   -> Boot(DefsOf(a.d1), DefsOf(a.d2))
+           [] a.a = "boot"   -> Boot(DefsOf(a.d1), DefsOf(a.d2), a.f1, a.f2)
            [] a.a = "fire"   -> Fire(a.e)
            [] a.a = "set"    -> SetState(a.x)
            [] a.a = "call"   -> Call(a.s, a.data, a.rr)
@@ -61,8 +63,17 @@ Matches(o) == ObsVal(o) = Proj' /\ Len(o.runs) = Cardinality(runs')
 \* generators respect them for flags = {}; under a deviation the state differs (e.g. a definition that should be
 \* gone still owns a service name) and a later action may fall outside the specified region: what the code does
 \* then is not specified, the recording is judged up to that step only (cut = that step).
-InRegion(a) == CASE a.a \in {"define", "push"} -> ConflictOK(a.c, DeclOf(a.d))
-                 [] a.a = "reload" -> ContentOK(a.c, DefsOf(a.defs))
+\* (the same for the named deviation "service-bookkeeping-keyed-by-spelling": from the first declaration that
+\* spells a registered name differently on, what the code does is not modelled)
+BySpelling == "service-bookkeeping-keyed-by-spelling" \in flags
+InRegion(a) == CASE a.a \in {"define", "push"} -> ConflictOK(a.c, DeclOf(a.d)) /\ ~(BySpelling /\ SpellingCollision(DeclOf(a.d)))
+                 [] a.a = "reload" -> /\ ContentOK(a.c, DefsOf(a.defs)) /\ ContentOK(Module, DefsOf(a.mdefs))
+                                      /\ ~(BySpelling /\ SpellingCollisionIn(DefsOf(a.defs) \o DefsOf(a.mdefs), {a.c}))
+                 [] a.a = "boot" -> ~(BySpelling /\ SpellingCollisionIn(DefsOf(a.d1) \o DefsOf(a.d2), {}))
+                 \* what a module that was imported by a session cell and never started does later is not modelled
+                 \* (named deviation): the recording is judged up to that import
+                 [] a.a = "import" -> /\ ContentOK(Module, DefsOf(a.mdefs)) /\ ~(BySpelling /\ SpellingCollisionIn(DefsOf(a.mdefs), {}))
+                                      /\ ~(SessionImportDelays(a.c, a.via) /\ Module \notin loaded /\ ~a.fail)
                  [] a.a = "call"   -> (hd[a.s] # 0 /\ G[hd[a.s]].d.resp = "only") => a.rr
                  [] OTHER -> TRUE
 TNext == /\ ok /\ cut = 0 /\ k < Len(Cases[cid].steps)
